@@ -183,9 +183,11 @@ let judge op args got =
                  | CDone (s', e', f') -> " asis=" ^ (if Zar.equal s' rs && Zar.equal e' re && flag_tok f' = rf then "same" else "diff")
                  | _ -> "") in
              if full then pass ~extra:("cls=" ^ cls ^ " path=" ^ route ^ fid) ()
-             else if route = "large" && Zar.leq (dlen nb rs) (Zar.succ rp) then
+             else if route = "large" && Zar.leq (dlen nb rs) (Zar.succ rp)
+                     && (Zar.lt rp (zi 16) || check_within_ulp_incl nb rp x rs re) then
                (* open finding: the ln/exp route is not faithful; no as-is model of the series exists,
-                  the class is its input route + an answer of the right shape *)
+                  the class is its input route + an answer of the right shape inside the measured
+                  envelope (at most one ulp off when the target precision is >= 16 digits) *)
                { (known "convert_base_large_exp_not_faithful" "contract") with
                  extra = "want=contract cls=large-" ^ (if check_within_ulp nb rp x rs re then "within-1ulp" else "off-by-1ulp-or-more") ^ " path=" ^ route }
              else { v = "fail"; extra = "contract-violated cls=" ^ cls ^ " path=" ^ route }
